@@ -10,6 +10,8 @@ import (
 	"go/token"
 	"go/types"
 	"math/big"
+	"os"
+	"runtime/debug"
 	"strconv"
 	"strings"
 
@@ -41,6 +43,9 @@ func (ex *Exec) specEnv(fr *Frame, st, old *State, assume bool) *SpecEnv {
 }
 
 func specErr(format string, args ...interface{}) {
+	if os.Getenv("VERIF_DEBUG") == "stack" {
+		debug.PrintStack()
+	}
 	panic(unsupported{"spec: " + fmt.Sprintf(format, args...)})
 }
 
@@ -286,10 +291,8 @@ func (env *SpecEnv) ident(name string) Value {
 	}
 	if env.fr != nil {
 		if env.useLocals {
-			if c, ok := env.fr.named[name]; ok {
-				if v, ok := env.st.Cells[c]; ok {
-					return v
-				}
+			if c := env.fr.namedCell(name, env.st); c != nil {
+				return env.st.Cells[c]
 			}
 		}
 		if v, ok := env.fr.params[name]; ok {
@@ -447,9 +450,9 @@ func (env *SpecEnv) lookupLocal(name string) Value {
 	if env.fr == nil {
 		return nil
 	}
-	if c, ok := env.fr.named[name]; ok && env.useLocals {
-		if v, ok := env.st.Cells[c]; ok {
-			return v
+	if env.useLocals {
+		if c := env.fr.namedCell(name, env.st); c != nil {
+			return env.st.Cells[c]
 		}
 	}
 	if v, ok := env.fr.params[name]; ok {
@@ -525,7 +528,7 @@ func (env *SpecEnv) loc(e ast.Expr) Loc {
 		return p.L
 	case *ast.Ident:
 		if env.fr != nil && env.useLocals {
-			if c, ok := env.fr.named[x.Name]; ok {
+			if c := env.fr.namedCell(x.Name, env.st); c != nil {
 				return Loc{Kind: LCell, Cell: c, Root: c.Ty, Ty: c.Ty}
 			}
 		}
